@@ -86,6 +86,22 @@ impl OwnedEntry {
     }
 }
 
+/// Makes sure a directory and all its ancestors are registered exactly once.
+fn register_dir(dirs: &mut HashMap<SharedString, Vec<OwnedEntry>>, id: &SharedString) {
+    if dirs.contains_key(id) {
+        return;
+    }
+    dirs.insert(id.clone(), Vec::new());
+
+    if let Some(parent) = DirEntry::Directory(id).parent_id() {
+        let parent = SharedString::from(parent);
+        register_dir(dirs, &parent);
+        if let Some(entries) = dirs.get_mut(&parent) {
+            entries.push(OwnedEntry::Dir(id.clone()));
+        }
+    }
+}
+
 /// Register a file of an archive in maps.
 fn register_file(
     file: tar::Entry<'_, impl io::Read>,
@@ -134,7 +150,7 @@ fn register_file(
         let id = id_builder.join();
 
         // Register the file in the maps.
-        let entry = if file.header().entry_type().is_file() {
+        if file.header().entry_type().is_file() {
             let ext = crate::utils::extension_of(&path)?.into();
             let desc = FileDesc(id, ext);
 
@@ -142,14 +158,11 @@ fn register_file(
             let size = file.size();
 
             files.insert(desc.clone(), (start, size));
-            OwnedEntry::File(desc)
+            register_dir(dirs, &parent_id);
+            dirs.entry(parent_id).or_default().push(OwnedEntry::File(desc));
         } else {
-            if !dirs.contains_key(&id) {
-                dirs.insert(id.clone(), Vec::new());
-            }
-            OwnedEntry::Dir(id)
-        };
-        dirs.entry(parent_id).or_default().push(entry);
+            register_dir(dirs, &id);
+        }
 
         Some(())
     })()
@@ -242,6 +255,7 @@ where
 
         let mut files = HashMap::new();
         let mut dirs = HashMap::new();
+        register_dir(&mut dirs, &SharedString::from(""));
 
         for file in archive.entries_with_seek()? {
             register_file(file?, &mut files, &mut dirs, &mut id_builder)
